@@ -374,3 +374,47 @@ Lemma cl_poll_eq : forall poll imp self trig label tid defl st rs,
           [unbubble (Lst rs); trig; Lst self; if is_none label then Lst defl else label; tid])
        (fun _ => ret (Lst self)) st.
 Proof. intros. unfold cl_poll. rewrite H. reflexivity. Qed.
+
+(* ---- all output-unit constructors (fixed arguments before the channel array) --------------- *)
+Lemma out_ar_is_gen : forall dc out bus output, out_ar dc out bus output = out_ar_gen dc out [bus] output.
+Proof. reflexivity. Qed.
+Lemma out_kr_is_gen : forall out bus output, out_kr out bus output = out_kr_gen out [bus] output.
+Proof. reflexivity. Qed.
+
+Lemma out_ar_gen_full : forall dc out fixed output st r st',
+  out_ar_gen dc out fixed output st = Ok r st' ->
+  let n := nlists (Lst (as_list output)) in
+  exists chans outs,
+    list_rel (fun uid => length st <= uid < length st + n) (as_list output) chans /\
+    existsb has_zero chans = false /\
+    multi_new (new1_plain out 1) (fixed ++ chans) (st ++ repeat (dc_unit dc) n) = Ok r st' /\
+    st' = st ++ repeat (dc_unit dc) n ++ outs /\
+    length outs = count_calls (fixed ++ chans) /\ Forall (flat_vector out) outs.
+Proof.
+  intros dc out fixed output st r st' H n. unfold out_ar_gen, replace_zeroes in H. unfold bind at 1 2 in H.
+  destruct (rz_exact dc (Lst (as_list output)) st) as [E _]. rewrite E in H. unfold ret in H.
+  pose proof (rzp_rel (length st) (length st + n) (Lst (as_list output)) (length st)
+                ltac:(lia) ltac:(subst n; lia) eq_refl) as Hrel.
+  pose proof (rzp_no_zero (Lst (as_list output)) (length st) eq_refl) as Hz.
+  apply item_rel_lst in Hrel. destruct Hrel as (chans & Ec & Hrel).
+  rewrite Ec in H, Hz. simpl items in H. simpl in Hz. fold n in H.
+  destruct (multi_new_units _ _ _ _ _ _ H) as (outs & -> & Lo & Po).
+  exists chans, outs. rewrite <- app_assoc in *.
+  split; [exact Hrel|]. split; [exact Hz|]. split; [exact H|]. split; [reflexivity|]. split; assumption.
+Qed.
+
+(* control rate: the channels are spliced one by one; with scalar fixed arguments and a flat
+   channel array that is ONE unit whose inputs are the fixed arguments followed by all channels *)
+Lemma out_kr_gen_flat : forall out fixed output st,
+  Forall (fun a => is_lst a = false) fixed -> Forall (fun a => is_lst a = false) (as_list output) ->
+  out_kr_gen out fixed output st =
+  Ok (Scalar (U (length st) 0)) (st ++ [mkUnit out (fixed ++ as_list output)]).
+Proof.
+  intros out fixed output st Hf Ho. unfold out_kr_gen.
+  rewrite multi_new_no_list by (apply Forall_app; auto). reflexivity.
+Qed.
+Lemma out_kr_gen_units : forall out fixed output st r st',
+  out_kr_gen out fixed output st = Ok r st' ->
+  exists outs, st' = st ++ outs /\ length outs = count_calls (fixed ++ as_list output) /\
+               Forall (flat_vector out) outs.
+Proof. intros. unfold out_kr_gen in H. eapply multi_new_units; eauto. Qed.
